@@ -12,6 +12,7 @@ SC = "cirkit/utils/scope.py"
 @obligation("C05.Scope.__iter__.increasing", "C05", [f"{SC}:Scope.__init__", f"{SC}:Scope.__iter__"])
 def _(vc):
     st = vc.set("vars")
+    vc.cardinality_abstraction_is_exact("the set is arbitrary and its enumeration is a bijection onto 0..n-1, which pins n to its cardinality")
     sc = vc.new(f"{SC}:Scope", st)
     seq = vc.I.builtins["list"].fn(vc.call((sc, "__iter__")))
     n = vc.len(seq)
